@@ -652,10 +652,10 @@ def tables(tier, rng):
         ("longer-last-bin", gen.chrom_bins(0, [2, 5]) + gen.chrom_bins(1, [2, 2])),
         ("one-bin-chroms", gen.chrom_bins(0, [5]) + gen.chrom_bins(1, [3])),
         ("uniform-width1", gen.chrom_bins(0, [1, 1, 1]) + gen.chrom_bins(1, [1])),
-        ("uniform-3", gen.chrom_bins(0, [3, 3, 2]) + gen.chrom_bins(1, [3, 1])),
     ]
     if tier == "thorough":
         T += [
+            ("uniform-3", gen.chrom_bins(0, [3, 3, 2]) + gen.chrom_bins(1, [3, 1])),
             ("uniform-4-3chrom", gen.chrom_bins(0, [4, 4, 4]) + gen.chrom_bins(1, [4, 3]) + gen.chrom_bins(2, [2])),
             ("variable-3chrom", gen.chrom_bins(0, [3, 1, 5, 2]) + gen.chrom_bins(1, [1, 1]) + gen.chrom_bins(2, [6, 2, 4])),
             ("longer-only-bin", gen.chrom_bins(0, [3, 3]) + gen.chrom_bins(1, [7])),
